@@ -41,6 +41,8 @@ inductive Ty
   | mcRequestSettings
   /-- `games::eco::EcoRequestSettings` -/
   | ecoRequestSettings
+  /-- `games::types::Game` (never built by a term; the value of the variable `game`) -/
+  | game
   deriving Repr, DecidableEq
 
 /-- enum constructors that occur in patterns (`Protocol`, `GameSpyVersion`, `QuakeVersion`, `ProprietaryProtocol`,
